@@ -102,6 +102,30 @@ def check(prog: Program, tier: str) -> Result:
     if not ok:
         res.violation("R04.1", f"classify-args|{norm_stmt(calls[0])[:80]}", prog.loc(fi, calls[0]), q,
                       f"the classifier is called as {norm_stmt(calls[0])[:100]} inside loops over {ast.unparse(outer.iter)} / {ast.unparse(inner[0].iter)}: not every point is tested against every boundary")
+    # the outlines that are looped over are ALL the caller's outlines: the parameter may only be wrapped ([one outline] -> list of one)
+    from ..custody import _bindings, root_of
+
+    for nm, what in ((ast.unparse(inner[0].iter), "outlines"), (ast.unparse(outer.iter), "coordinates")):
+        if nm not in fi.params():
+            r_ = root_of(fn, inner[0].iter if what == "outlines" else outer.iter)
+            okb = r_[0] == "param"
+            why_ = r_[2] if r_[0] in ("broken", "unknown") else ""
+        else:
+            okb, why_ = True, ""
+            for v_, pos_, st_ in _bindings(fn, nm):
+                wrap = isinstance(v_, ast.List) and len(v_.elts) == 1 and isinstance(v_.elts[0], ast.Name) and v_.elts[0].id == nm
+                if wrap:
+                    continue
+                r_ = root_of(fn, v_, _seen={nm}) if v_ is not None else ("unknown", st_, "not a plain assignment")
+                if r_[0] == "param" and r_[1] == nm:
+                    continue
+                if r_[0] == "unknown":
+                    raise AnalysisError(f"{q}: rebinding of {nm} not understood ({r_[2]})")
+                okb, why_ = False, (r_[2] if r_[0] == "broken" else f"rebound to {ast.unparse(v_)[:50]}")
+        res.ob("R04.1", f"the {what} that are looped over are all those the caller passed", okb, prog.loc(fi, fn))
+        if not okb:
+            res.violation("R04.1", f"subset|{what}|{why_[:60]}", prog.loc(fi, fn), q,
+                          f"remove_cutout does not work on all the {what} it is given ({why_}): {'an outline that is skipped constrains nothing - boreholes outside the property or inside a no-go zone survive' if what == 'outlines' else 'candidates are lost before they are classified'}")
     ok = "on_edge_tolerance" in b and ast.unparse(b["on_edge_tolerance"]) == "on_edge_tolerance" and "on_edge_tolerance" in fi.params()
     res.ob("R04.1", "the caller's edge tolerance is passed to the classifier", ok, prog.loc(fi, calls[0]))
     if not ok:
@@ -173,11 +197,68 @@ def _check_calls(prog: Program, res: Result):
             if not ok:
                 res.violation("R04.2", f"chain|{src}", prog.loc(fi, c), q, f"the no-go cut-out works on '{src}' instead of the points that survived the property cut ('{prev_out}')")
         prev_out = out
-    # what is appended to the domain is the result of the last cut
-    apps = [n for n in ast.walk(fi.node) if isinstance(n, ast.Call) and isinstance(n.func, ast.Attribute) and n.func.attr == "append" and n.args and isinstance(n.args[0], ast.Name) and n.args[0].id == prev_out]
-    res.ob("R04.2", "the field that enters the domain is the twice-filtered one", bool(apps), prog.loc(fi, fi.node))
-    if not apps:
-        res.violation("R04.2", "unfiltered-field", prog.loc(fi, fi.node), q, "the field appended to the candidate domain is not the result of the two cut-outs")
+    # what enters the domain, on every path through the loop body: the property cut of the candidate, then - when there are
+    # no-go zones - the no-go cut of those survivors
+    from ..paths import Const as _Const, Engine as _Engine, Hooks as _Hooks, State as _State, vkey as _vkey
+    from ..sym import Rat as _Rat
+    from .. import sym as _sym2
+
+    loop = next((lp for lp in ast.walk(fi.node) if isinstance(lp, ast.For) and all(any(c is x for x in ast.walk(lp)) for c in calls)
+                 and not any(isinstance(inner, ast.For) and inner is not lp and all(any(c is x for x in ast.walk(inner)) for c in calls) for inner in ast.walk(lp))), None)
+    if loop is None or not isinstance(loop.target, ast.Name):
+        raise AnalysisError(f"{q}: the loop over candidate fields that applies the cut-outs was not found")
+    cuts = {}
+
+    class HC(_Hooks):
+        def on_call(self, node, fname, args, kwargs, st, eng):
+            if fname == "remove_cutout":
+                b_ = bind_args(rc, node)
+                k = f"CUT{len(cuts) + 1}"
+                cuts[k] = (eng.eval(b_["coordinates"], st) if "coordinates" in b_ else None, ast.unparse(b_["boundaries"]) if "boundaries" in b_ else None, node)
+                return _Rat.atom(k)
+            if fname and fname.endswith(".append") and len(args) == 1:
+                st.emit("APPEND", (fname[:-7], args[0]), node)
+                return _Const(None)
+            return None
+
+    eng_ = _Engine(prog, fi, HC())
+    st_ = _State()
+    for p_ in fi.params():
+        st_.env[p_] = _Rat.atom(p_)
+    st_.env[loop.target.id] = _Rat.atom("FIELD")
+    n_app = 0
+    nz = _sym2.call("len", [_Rat.atom("no_go_boundaries")])
+    for f_ in eng_.run_block(loop.body, [st_]):
+        for ev in f_.events:
+            if ev.kind != "APPEND":
+                continue
+            n_app += 1
+            v = ev.data[1]
+            chain = []
+            cur = v
+            while isinstance(cur, _Rat) and cur.key() in cuts:
+                chain.append(cuts[cur.key()][1])
+                cur = cuts[cur.key()][0]
+            rooted = isinstance(cur, _Rat) and cur.equals(_Rat.atom("FIELD"))
+            zones = f_.sign_of(nz)
+            if zones and "+" not in zones:
+                zones = frozenset("0")  # a length is never negative
+            if zones == frozenset("+") or (zones and "0" not in zones):
+                want_chain = [["no_go_boundaries", "property_boundary"]]
+            elif zones == frozenset("0"):
+                want_chain = [["property_boundary"]]
+            else:
+                want_chain = [["no_go_boundaries", "property_boundary"], ["property_boundary"]]
+            okp = rooted and chain in want_chain
+            case = "there are no-go zones" if zones == frozenset("+") else ("there are no no-go zones" if zones == frozenset("0") else "no-go zones undetermined")
+            res.ob("R04.2", f"[{case}] the field that enters the domain is the candidate cut against {' then '.join(reversed(chain)) or 'nothing'}", okp, prog.loc(fi, ev.node))
+            if not okp:
+                res.violation("R04.2", f"unfiltered-field|{case}|{'>'.join(reversed(chain))}|{_vkey(cur)[:30]}", prog.loc(fi, ev.node), q,
+                              f"on the path where {case}, the field appended to the candidate domain is {_vkey(v)[:40]} = the candidate cut against [{', '.join(reversed(chain)) or 'nothing'}]"
+                              f"{'' if rooted else ' of ' + _vkey(cur)[:40]} instead of the property cut{' followed by the no-go cut' if zones != frozenset('0') else ''}: boreholes outside the property or inside a no-go zone are published")
+    if n_app < 1:
+        res.ob("R04.2", "the field that enters the domain is the twice-filtered one", False, prog.loc(fi, fi.node))
+        res.violation("R04.2", "unfiltered-field", prog.loc(fi, fi.node), q, "no path of the loop over candidates appends a cut field to the candidate domain")
     # the no-go cut may only be skipped when there are no no-go zones
     second = calls[1]
     guard = None
@@ -509,6 +590,18 @@ def _check_order(prog: Program, res: Result):
 
 
 VARIANTS = [
+    Variant("outlines with three corners or fewer are skipped (seeded C04_f)", "break",
+            [(FR, "        boundaries = [boundaries]\n", "        boundaries = [boundaries]\n    boundaries = [boundary for boundary in boundaries if len(boundary) > 3]\n")], "R04.1"),
+    Variant("outlines copied into a list before the loop", "benign",
+            [(FR, "        boundaries = [boundaries]\n", "        boundaries = [boundaries]\n    boundaries = list(boundaries)\n")]),
+    Variant("two-stage refactor: without no-go zones the raw candidate is published (seeded C04_e)", "break",
+            [(DOM, "            new_coordinates = remove_cutout(\n                coordinates, property_boundary, remove_inside=False, keep_contour=keep_contour[0]\n            )\n            if len(new_coordinates) == 0:\n                continue\n",
+              "            on_property = remove_cutout(\n                coordinates, property_boundary, remove_inside=False, keep_contour=keep_contour[0]\n            )\n            if len(on_property) == 0:\n                continue\n"),
+             (DOM, "                new_coordinates = remove_cutout(\n                    new_coordinates, no_go_boundaries, remove_inside=True, keep_contour=keep_contour[1]\n                )\n", "                new_coordinates = remove_cutout(\n                    on_property, no_go_boundaries, remove_inside=True, keep_contour=keep_contour[1]\n                )\n            else:\n                new_coordinates = coordinates\n")], "R04.2"),
+    Variant("two-stage refactor: without no-go zones the property cut is published", "benign",
+            [(DOM, "            new_coordinates = remove_cutout(\n                coordinates, property_boundary, remove_inside=False, keep_contour=keep_contour[0]\n            )\n            if len(new_coordinates) == 0:\n                continue\n",
+              "            on_property = remove_cutout(\n                coordinates, property_boundary, remove_inside=False, keep_contour=keep_contour[0]\n            )\n            if len(on_property) == 0:\n                continue\n"),
+             (DOM, "                new_coordinates = remove_cutout(\n                    new_coordinates, no_go_boundaries, remove_inside=True, keep_contour=keep_contour[1]\n                )\n", "                new_coordinates = remove_cutout(\n                    on_property, no_go_boundaries, remove_inside=True, keep_contour=keep_contour[1]\n                )\n            else:\n                new_coordinates = on_property\n")]),
     Variant("ray casting stops after the second crossing (seeded C04_c)", "break",
             [(SHM, "    inside = True\n", "    crossings = 0\n"),
              (SHM, "                inside = not inside\n", "                crossings += 1\n                if crossings == 2:\n                    return -1\n"),
